@@ -1,7 +1,7 @@
 (* C03 -- check-only entry points give the same verdict, offset and error as parsing.
    Statements only; every proof is `exact` of a lemma proved in Proofs/CheckParse.v. *)
 From Coq Require Import List NArith.
-From PT Require Import Model.Base Model.Stack Model.Texpr Model.Sem Proofs.CheckParse.
+From PT Require Import Model.Base Model.Stack Model.Texpr Model.Sem Model.Tracker Model.Report Proofs.CheckParse Proofs.SameReport.
 
 (* For every environment (grammar, skip type, input of any of the three forms), every expression,
    every starting cursor / stack / tracker trace and every amount of fuel: the check path returns the
@@ -27,3 +27,19 @@ Theorem C03_full_entry : forall E fuel r,
   try_check E fuel r = erase_all (try_parse E fuel r).
 Proof. exact try_check_is_parse. Qed.
 Print Assumptions C03_full_entry.
+
+(* "... and on failure produce the identical error report": a rejected full parse and the full check leave the same state, hence
+   the same tracker (position, expected / unexpected lists per enclosing rule, special errors) and the same rendered report *)
+Theorem C03_same_report : forall E fuel r st,
+  try_parse E fuel r = Fail st ->
+  try_check E fuel r = Fail st /\
+  forall st', try_check E fuel r = Fail st' ->
+    run_tracker (i_start (e_inp E)) (tr st') = run_tracker (i_start (e_inp E)) (tr st) /\
+    report (run_tracker (i_start (e_inp E)) (tr st')) = report (run_tracker (i_start (e_inp E)) (tr st)).
+Proof. exact full_same_report. Qed.
+Print Assumptions C03_same_report.
+
+Theorem C03_check_fail_parse_fail : forall E fuel r st,
+  try_parse E fuel r <> Panic -> try_check E fuel r = Fail st -> try_parse E fuel r = Fail st.
+Proof. exact full_check_fail_parse_fail. Qed.
+Print Assumptions C03_check_fail_parse_fail.
